@@ -303,6 +303,22 @@ def struct_case(draw):
         else:
             val = draw(S.any_expr(2))
         entries.append([key, val])
+    if draw(st.integers(0, 4)) == 0:
+        # a name key whose replacement turns another subscript / look-up into exactly a
+        # whole-node key: substitution is simultaneous, the rebuilt node is not looked
+        # up again  (a[i] + 10*a[j] with {i: j, a[j]: c} is a[j] + 10*c)
+        arr, i, j = "arr_q", "idx_i", "idx_j"
+        val = draw(st.sampled_from((["Var", "c_new"], ["Const", "int", 7],
+                                    ["Sum", [["Var", "c_new"], ["Const", "int", 1]]])))
+        if draw(st.booleans()):
+            node = lambda ix: ["Subscript", ["Var", arr], ["Var", ix]]  # noqa: E731
+            entries += [[i, ["Var", j]], [node(j), val]]
+            ex = ["Sum", [ex, node(i), ["Product", [["Const", "int", 10], node(j)]]]]
+        else:
+            node = lambda ag: ["Lookup", ["Var", ag], "attr"]  # noqa: E731
+            entries += [[["Var", i], ["Var", j]], [node(j), val]]
+            ex = ["Sum", [node(i), ["Product", [["Const", "int", 10], node(j)]], ex]]
+        entries = [e for e in entries if e[0] not in (arr, ["Var", arr])]
     kwargs = []
     d = []
     for k, v in entries:
